@@ -45,6 +45,9 @@ def partition_identifiers_to_blocks(identifier_list: list,
     :return:
     todo use toolkit.list_utils.chunks method
     """
+    if entry_count_in_one_block <= 0:
+        raise ValueError("parameter entry_count_in_one_block should be a positive integer")
+
     if block_size_bytes == 0:
         block_size_bytes = entry_count_in_one_block * identifier_size
 
